@@ -189,6 +189,17 @@ mod structs;
 #[cfg(test)]
 mod tests;
 
+#[cfg(bpaf_verif)]
+#[doc(hidden)]
+pub mod verif_hooks {
+    //! verification hooks, compiled only with `--cfg bpaf_verif`
+    pub use crate::buffer::verif_take_doc;
+    #[cfg(feature = "autocomplete")]
+    pub use crate::complete_gen::{verif_arg_matches, verif_cmd_matches};
+    #[cfg(feature = "autocomplete")]
+    pub use crate::complete_shell::verif_render_shell;
+}
+
 pub mod parsers {
     //! This module exposes parsers that accept further configuration with builder pattern
     //!
